@@ -17,7 +17,7 @@ CHECKS = {
              "example generators, on replicas with permuted commutative flags and on replicas with the operators declared in 3 other orders (other priorities; the prefix operator's binary twin first), optimizer on and off, evaluated on every "
              "assignment and compared with direct evaluation by the operators' Go definitions; let/if forms incl. lets nested inside the "
              "value of a let, evaluated also through Func.Eval on rows of one table, with the variable names handed to Generate as a "
-             "slice with spare capacity (results, table and names must be untouched). Exhaustive within the bound, "
+             "slice with spare capacity (results, table and names must be untouched); 600 float if/let forms (conditions and constant branches of every truth value; nested lets in the arguments of 2- and 3-argument functions, fresh and used stacks). Exhaustive within the bound, "
              "which is the whole quantifier of the property for bools.",
         note="Trusted: the tree renderer (its grouping rules are those stated in the property; cross-checked by C03's reference "
              "parser) and Go's float arithmetic. Float cases whose arithmetic is not exact (checked with big.Rat) are excluded.",
@@ -66,7 +66,7 @@ CHECKS.update({
              "are evaluated on the same map in five storage representations, optimizer on and off; Generate-time success and outcomes must agree. A second "
              "attribute set holds closures (f:(int,int)->int, g:int->int): implicit calls f(..) against the method-call form this.f(..), with let/func inside the arguments; "
              "a third one stores closures under names of map methods (put, get); constants added to a generator AFTER its first GenerateWithMap must shadow attributes too; the fixed templates and all binder skeletons with <= 2 binders also run with the "
-             "argument map named m, max, string, numbers (static functions), pi (a constant) and a (one of its own attributes).",
+             "argument map named m, max, string, numbers (static functions), pi (a constant) and a (one of its own attributes), with every free attribute use written alone in parentheses, and 12 programs on a generator with an empty identifier table.",
         note="Trusted: the free-variable substitution of internal/vlang. The explicit form's own correctness is C01's claim.",
         technique="bounded-exhaustive differential enumeration (implicit vs explicit attribute access)",
         design_ref="DESIGN.md §5 C16",
@@ -161,7 +161,7 @@ CHECKS.update({
              "+-MaxFloat64 (weights 1, 0.5, -2), in one and two dimensions (all 45x45 axis pairs for single records), evaluated through value.New().Generate on the "
              "real binning/binning2d/collectBinning and compared with a reference histogram, the exact weight sum and the exact interval description of every bin. "
              "Single records are also binned on 4608 (thorough: 18432) grids with sizes n, n/2, n/8 for every n <= 128 (512). Additivity is checked for every list against every splitting into 1 part, 2 parts (all subsets) and 3 contiguous parts, empty parts included, "
-             "collecting twice from the same part binnings (collecting must not change its parts). Lists of <= 2 (2-d: <= 1) records are also binned AFTER the same binning has failed half way on a list with a string in a numeric field. "
+             "collecting twice from the same part binnings (collecting must not change its parts). Lists of <= 2 (2-d: <= 1) records are also binned AFTER the same binning has failed half way on a list with a string in a numeric field, after a binning on the same start and size with another count, and with the result's own lists appended to before it is judged. "
              "Exhaustive within these bounds (4.3 M cases quick, about 115 M thorough).",
         note="Trusted: the reference bin index (comparisons of x with edges start+k*size computed with big.Rat and asserted exactly representable), Go float64 "
              "addition of dyadic weights. +-1-ulp neighbours of an edge are judged only when (x-start)/size is exact in float64 (others counted in "
@@ -220,7 +220,7 @@ CHECKS.update({
              "replace with a literal / with another map inside and outside the key set, eval, map, accept, combine - executed on the real value.Map objects; after "
              "every transition every live handle is observed through 23 observers (member access, get, isAvail, ~, size, list, string, map/accept iteration, iteration "
              "stopped at once, map/accept with a callback failing at every key in turn, = against rebuilt literals, one-place variants and all peers, JSON export, Go API) against a Go map fixed at creation, plus a complete storage-dump persistence "
-             "check. States are deduplicated on (model, hidden storage-wrapper tree). 34 further sources are explored alone, and replace chains up to length 13/24 with "
+             "check. States are deduplicated on (model, hidden storage-wrapper tree). 36 further sources (incl. struct wrappers with an attribute registered twice) are explored alone, and replace chains up to length 13/24 with "
              "put/+/eval/map interleaved at every position cross the depth-10 flattening and the 20-key RealMap threshold. Exhaustive within these bounds (quick "
              "260 680 / thorough 11.2 M transitions, every one executed on the implementation).",
         note="Bounded: no fixpoint of storage shapes exists (wrappers nest unboundedly); longer histories are covered only by the replace-chain families. Trusted: the "
@@ -251,7 +251,7 @@ CHECKS.update({
              "every list/map representation constructible through the public API (13+1 map, 6+1 list), 19 boundary scalars, and every value tree of height <= 3 with "
              "<= 2 children per node (thorough: also 4 leaf classes and every such tree below 1-2 further containers, depth 5) is exported by the real JSON exporter; "
              "encoding/json must accept the document and a token-level decode must yield arrays in order, exactly the key set without duplicates, and every scalar as "
-             "the JSON string of its string form; every document is kept as returned and must be unchanged after the next value has been exported; every small tree is also exported directly after each of 12 exports that fail or panic half way. Exhaustive within these bounds (5.2 M / 53 M cases).",
+             "the JSON string of its string form; every document is kept as returned and must be unchanged after the next value has been exported; every small tree is also exported directly after each of 12 exports that fail or panic half way; every trouble symbol behind fillers of every length 0..200 (thorough 1100). Exhaustive within these bounds (5.2 M / 53 M cases).",
         note="Trusted: encoding/json as the standard parser, strconv for the documented string form of scalars, the tree builder internal/exptree. Domain: valid UTF-8, "
              "distinct keys. Not decided: all binary trees of height >= 4, strings longer than 3 symbols.",
         technique="bounded-exhaustive enumeration of value trees x representations, decided by decoding the real output with an independent parser",
@@ -264,7 +264,7 @@ CHECKS.update({
              "height <= 3 in every representation, every wrapper tree of height <= 2 (thorough: 3), list sizes around maxListSize 0-3 in both dimensions, and "
              "failing/panicking producers and closures: the complete output is tokenised by encoding/xml (strict) and must be balanced, use only the exporter's "
              "vocabulary (plus map keys that are XML names), decode in every text and attribute to exactly the value's strings, preserve list order and key sets, and "
-             "ToHtml must return an error, never panic; every XML document is kept as returned and must be unchanged after the next export. Exhaustive within these bounds (1.36 M / 38 M cases).",
+             "ToHtml must return an error, never panic; every XML document is kept as returned and must be unchanged after the next export; every markup symbol behind fillers of every length 0..150 (thorough 700). Exhaustive within these bounds (1.36 M / 38 M cases).",
         note="Trusted: encoding/xml plus the harness' own end-tag matching, attribute-uniqueness and attribute-normalisation decoder; the HTML reference model in "
              "cmd/c18/model.go (decoration texts and float formatting accepted as any text). Counted unspecified: raw TAB/LF in ToHtml attribute values, name-space "
              "meaning of keys with ':' or prefix 'xml', names valid only in XML 1.0 5th edition, indentation next to text in plainList output.",
@@ -281,7 +281,7 @@ CHECKS.update({
              "folded-constant and inside-function-constant lists; literal / constant / struct-wrapper / hash maps), all append trees of <= 7 (9) appends, chains of "
              "<= 8 (12) appends with branches at every position, and lists kept by callbacks. After every transition every live handle is compared through all "
              "observers with a functional model fixed at creation; states are deduplicated on model value plus hidden state (itemsPresent, len, cap, backing-array "
-             "sharing, laziness, wrapper nesting). Quick: 675 k states, 1.9 M transitions, every one executed on the implementation.",
+             "sharing, laziness, wrapper nesting). The alphabet includes a HOST iteration through List.Iterate that stops behind the first element. Quick: 675 k states, 1.9 M transitions, every one executed on the implementation.",
         note="Trusted: the functional model written from the method descriptions; Go's non-moving allocator (array identity read as an address within one execution); "
              "128-bit key hashes. Bounded by depth (no fixpoint: pools grow) and by list length <= 12 in the general alphabets. Map key order of hash-backed storages is "
              "compared as a set. Parallel iterator mode and replace keys outside the key set are left to C06/C11/C13.",
@@ -333,11 +333,11 @@ CHECKS.update({
     "C03": dict(
         level="exploration", engine="bex",
         text="Every operator table of 1..3 (thorough: ..4) binary spellings from a 12-spelling pool built to collide under maximal munch, with every subset of prefix "
-             "operators {- ! ~} (also binary at every position including the last; such tables also with the builder calls in the orders Unary.Op and Op.Unary.Op) and a text alias on/off, plus dead-end, prefix-of-binary and 16-operator tables, "
+             "operators {- ! ~} (also binary at every position including the last; such tables also with the builder calls in the orders Unary.Op and Op.Unary.Op) and a text alias on/off, plus dead-end, prefix-of-binary, non-ASCII-spelling and 16-operator tables, "
              "is combined with every operator tree of <= 3 (thorough: 4) nodes in every parenthesisation (minimal, every subset of redundant pairs, full), with postfix "
              "and keyword forms around and inside the trees. The real Parse's AST must equal the tree of a reference precedence-climbing parser written from the "
              "property statement, which itself must reproduce every generated tree from every rendering. Every single-token deletion, insertion or substitution of every valid token "
-             "string of <= 6 (thorough: 7) tokens on 7 tables must be rejected unless the reference accepts it; panics are violations. Exhaustive within these bounds "
+             "string of <= 6 (thorough: 7) tokens on 7 tables (alphabet incl. a quoted identifier spelled like an operator) must be rejected unless the reference accepts it; panics are violations. Exhaustive within these bounds "
              "(35 M evaluations quick).",
         note="Bounds are far below the quantifier's 16 operators and depth, except for three 16-operator orders at <= 2/3 nodes. Leaves are labelled a b 1 by position. "
              "Trusted: the reference parser (cross-validated against the renderer on every tree) and the layout rule. Counted as unspecified and excluded: '->' after an "
